@@ -2050,6 +2050,7 @@ func (ctx Ctx) constSpec(spec *ast.ValueSpec) coq.ConstDecl {
 		ctx.unsupported(spec, "multiple names in one const or var spec")
 	}
 	ident := spec.Names[0]
+	ctx.checkDefinitionName(spec, ident.Name)
 	cd := coq.ConstDecl{
 		Name:     ident.Name,
 		AddTypes: ctx.PkgConfig.TypeCheck,
@@ -2254,9 +2255,29 @@ func (ctx Ctx) callExprInterface(cvs []coq.Decl, r *ast.CallExpr) []coq.Decl {
 	return cvs
 }
 
+// words that cannot name a Coq definition: Gallina's keywords, and rec, which
+// the lexer joins with the colon of "Definition rec: val"
+var coqReservedWords = map[string]bool{
+	"as": true, "at": true, "cofix": true, "else": true, "end": true,
+	"exists": true, "exists2": true, "fix": true, "for": true, "forall": true,
+	"fun": true, "if": true, "IF": true, "in": true, "let": true, "match": true,
+	"mod": true, "Prop": true, "return": true, "Set": true, "SProp": true,
+	"then": true, "Type": true, "using": true, "where": true, "with": true,
+	"rec": true,
+}
+
+func (ctx Ctx) checkDefinitionName(n ast.Node, name string) {
+	if coqReservedWords[name] {
+		ctx.unsupported(n, "%s is a reserved word of Coq and cannot name a definition", name)
+	}
+}
+
 func (ctx Ctx) maybeDecls(d ast.Decl) []coq.Decl {
 	switch d := d.(type) {
 	case *ast.FuncDecl:
+		if d.Recv == nil {
+			ctx.checkDefinitionName(d, d.Name.Name)
+		}
 		if d.Recv == nil && d.Name.Name == "_" {
 			// a blank function cannot be called and "Definition _" is not Coq
 			return nil
@@ -2294,6 +2315,7 @@ func (ctx Ctx) maybeDecls(d ast.Decl) []coq.Decl {
 				return nil
 			}
 			spec := d.Specs[0].(*ast.TypeSpec)
+			ctx.checkDefinitionName(spec, spec.Name.Name)
 			ctx.dep.addName(spec.Name.Name)
 			ty := ctx.typeDecl(d.Doc, spec)
 			return []coq.Decl{ty}
